@@ -165,6 +165,18 @@ def impl_jump(valid_n, dst_vals, unk):
     return valid, vals, sorted(out), flags
 
 
+def agree(ialts, mexact, mcomplete, unk):
+    """unk = 0: the solver is complete on these formulas, the alternatives must be exactly the model's.
+    unk = 1: every solver query answers `unknown`, but Exec.check decides some conditions without the solver
+    (literals, conditions already on the path): any behaviour between the complete and the ignorant oracle
+    is legal -- complete-oracle alternatives <= implementation <= ignorant-oracle alternatives (live ones)."""
+    live = lambda alts: sorted(x for x in alts if any(x[1]))  # noqa: E731
+    if not unk:
+        return live(ialts) == live(mexact)
+    lo, hi, im = live(mcomplete), live(mexact) + live(mcomplete), live(ialts)
+    return all(x in im for x in lo) and all(x in hi for x in im)
+
+
 def run(rep, tier, r):
     """the three correspondences; failures are reported on `rep`"""
     exe, log = common.build_driver("BP")
@@ -193,7 +205,9 @@ def run(rep, tier, r):
             mask[0] = 1
         cases.append((accts, tgt, mask, 1 if r.random() < 0.3 else 0))
     res = m.batch([("bp_alias", [T, len(a)] + a + [len(t)] + t + mk + [u]) for a, t, mk, u in cases])
-    for (accts, tgt, mask, unk), mr in zip(cases, res):
+    res0 = m.batch([("bp_alias", [T, len(a)] + a + [len(t)] + t + mk + [0]) for a, t, mk, u in cases])
+    dec = lambda mr, nv, mask: sorted((mr[1 + i * (nv + 1)], [b & k for b, k in zip(mr[2 + i * (nv + 1): 2 + i * (nv + 1) + nv], mask)]) for i in range(mr[0]))  # noqa: E731
+    for (accts, tgt, mask, unk), mr, mr0 in zip(cases, res, res0):
         nv = len(tgt)
         if len(set(tgt)) == 1:
             continue    # the term is a constant: resolve_address_alias answers without branching (known account / empty account)
@@ -213,7 +227,7 @@ def run(rep, tier, r):
         # `unsat` for a condition that simplifies to false even when the solver itself would time out)
         ialts = [x for x in ialts if any(x[1])]
         malts = [x for x in malts if any(x[1])]
-        if ialts != malts:
+        if not agree(ialts, malts, dec(mr0, nv, mask), unk):
             nbad += 1
             # is an input dropped by the real code?  (spec: every valuation of the path whose target is not the test contract is covered)
             uncovered = [i for i in range(nv) if mask[i] and tgt[i] != T and not any(bits[i] for _a, bits in ialts)]
@@ -233,7 +247,8 @@ def run(rep, tier, r):
             mask[0] = 1
         cases.append((bal, val, mask, 1 if r.random() < 0.3 else 0))
     res = m.batch([("bp_funds", [len(b)] + b + v + mk + [u]) for b, v, mk, u in cases])
-    for (bal, val, mask, unk), mr in zip(cases, res):
+    res0 = m.batch([("bp_funds", [len(b)] + b + v + mk + [0]) for b, v, mk, u in cases])
+    for (bal, val, mask, unk), mr, mr0 in zip(cases, res, res0):
         nv = len(bal)
         malts = sorted((mr[1 + i * (nv + 1)], [b & k for b, k in zip(mr[2 + i * (nv + 1): 2 + i * (nv + 1) + nv], mask)]) for i in range(mr[0]))
         try:
@@ -244,8 +259,7 @@ def run(rep, tier, r):
         rep.case({"bp": "funds", "bal": bal, "val": val, "mask": mask, "unk": unk}, nontrivial=len(malts) > 1)
         rep.count("branch_point", "funds alternatives=%d" % len(malts))
         # alternatives that hold on no valuation of the path are immaterial (the model keeps the succeeding one always)
-        live = lambda alts: [x for x in alts if any(x[1])]  # noqa: E731
-        if live(ialts) != live(malts):
+        if not agree(ialts, malts, dec(mr0, nv, mask), unk):
             uncovered = [i for i in range(nv) if mask[i] and not any(bits[i] for _f, bits in ialts)]
             wrong = [(f, i) for f, bits in ialts for i in range(nv) if bits[i] and mask[i] and (bal[i] < val[i]) != bool(f)]
             kind = "failing-input" if uncovered or wrong else "broken-tie"
@@ -262,7 +276,8 @@ def run(rep, tier, r):
             mask[0] = 1
         cases.append((ctab, mask, 1 if r.random() < 0.3 else 0))
     res = m.batch([("bp_assert", [len(c)] + c + mk + [u]) for c, mk, u in cases])
-    for (ctab, mask, unk), mr in zip(cases, res):
+    res0 = m.batch([("bp_assert", [len(c)] + c + mk + [0]) for c, mk, u in cases])
+    for (ctab, mask, unk), mr, mr0 in zip(cases, res, res0):
         nv = len(ctab)
         malts = sorted((mr[1 + i * (nv + 1)], [b & k for b, k in zip(mr[2 + i * (nv + 1): 2 + i * (nv + 1) + nv], mask)]) for i in range(mr[0]))
         try:
@@ -272,8 +287,7 @@ def run(rep, tier, r):
             continue
         rep.case({"bp": "assert", "cond": ctab, "mask": mask, "unk": unk}, nontrivial=len(malts) > 1)
         rep.count("branch_point", "assert alternatives=%d" % len(malts))
-        live = lambda alts: [x for x in alts if any(x[1])]  # noqa: E731
-        if live(ialts) != live(malts):
+        if not agree(ialts, malts, dec(mr0, nv, mask), unk):
             # spec: an input on which the relation is false must be covered by a state that ends as a failed assertion
             lost = [i for i in range(nv) if mask[i] and ctab[i] == 0 and not any(f and bits[i] for f, bits in ialts)]
             wrong = [i for i in range(nv) if mask[i] and ctab[i] != 0 and any(f and bits[i] for f, bits in ialts)]
